@@ -87,11 +87,16 @@ pub fn execute(prop: &PropDef, run_seed: u64, cfg: &Cfg, evs: &[Ev]) -> RunRepor
 
 pub fn execute_with(prop: &PropDef, cfg: &Cfg, evs: &[Ev], mut oracle: Box<dyn Oracle>) -> RunReport {
     install_hooks(cfg);
+    let trace = std::env::var("AMSIM_TRACE").is_ok();
     let mut world = World::new(cfg.clone());
     let res = monitor::guarded(|| -> Result<(), Violation> {
         for ev in evs {
             oracle.before(&mut world, ev);
             let out = world.exec(ev);
+            if trace {
+                let s = format!("{out:?}");
+                eprintln!("[{}] {} -> {}", world.step, serde_json::to_string(ev).unwrap_or_default(), &s[..s.len().min(400)]);
+            }
             if matches!(out, Outcome::Nop) {
                 continue;
             }
